@@ -1325,3 +1325,249 @@ func resolvedAddrPath(addr ssa.Value) accessPath {
 	}
 	return p
 }
+
+// ---------------------------------------------------------------------------
+// ELIM: Gaussian elimination tests the entry it acts on, and mirrors every row
+// operation on the augmented matrix
+
+const ruleELIMText = "elimination is consistent: in gf2p16 Matrix.rowReduceForInverse, (mirror) every swapRows/scaleRow/addScaledRow applied to m is applied in the same block to n with the same operands and vice versa; (pivot) a swapRows(i, j) is guarded by m.At(j, i) != 0 - the row that is tested is the row that is swapped in, in the column being eliminated; (factor) an addScaledRow(d, s, c) on m has c = m.At(d, s); (scale) scaleRow(r, c) has c = Inverse of a value that includes m.At(r, r)"
+
+func ruleELIM(w *World, r *Report) {
+	r.rule("ELIM", ruleELIMText)
+	fn := w.Fn("(gf2p16.Matrix).rowReduceForInverse")
+	if fn == nil {
+		r.unk("ELIM", "(gf2p16.Matrix).rowReduceForInverse", "", "function not found")
+		return
+	}
+	if len(fn.Params) < 2 {
+		r.unk("ELIM", shortName(fn), w.pos(fn.Pos()), "unexpected signature")
+		return
+	}
+	m, n := ssa.Value(fn.Params[0]), ssa.Value(fn.Params[1])
+	type op struct {
+		call *ssa.Call
+		name string
+		recv ssa.Value
+		args []ssa.Value
+	}
+	var ops []op
+	atCall := func(v ssa.Value) (recv ssa.Value, row, col ssa.Value, ok bool) {
+		c, isCall := stripConv(v).(*ssa.Call)
+		if !isCall {
+			return nil, nil, nil, false
+		}
+		f := c.Call.StaticCallee()
+		if f == nil || f.Name() != "At" || len(c.Call.Args) != 3 {
+			return nil, nil, nil, false
+		}
+		return matrixRoot(c.Call.Args[0]), c.Call.Args[1], c.Call.Args[2], true
+	}
+	for _, ci := range callInstrs(fn) {
+		c, ok := ci.(*ssa.Call)
+		if !ok {
+			continue
+		}
+		f := c.Call.StaticCallee()
+		if f == nil || f.Signature.Recv() == nil {
+			continue
+		}
+		switch f.Name() {
+		case "swapRows", "scaleRow", "addScaledRow":
+			ops = append(ops, op{c, f.Name(), matrixRoot(c.Call.Args[0]), c.Call.Args[1:]})
+		}
+	}
+	sameArgs := func(a, b []ssa.Value) bool {
+		if len(a) != len(b) {
+			return false
+		}
+		for i := range a {
+			if a[i] != b[i] {
+				return false
+			}
+		}
+		return true
+	}
+	cnt := map[string]int{}
+	for _, o := range ops {
+		who, other := "m", n
+		if o.recv == n {
+			who, other = "n", m
+		} else if o.recv != m {
+			r.unk("ELIM", fmt.Sprintf("%s:%s:recv", shortName(fn), o.name), w.ipos(o.call), "row operation on a matrix that is neither m nor n")
+			continue
+		}
+		key := fmt.Sprintf("%s:mirror:%s.%s#%d", shortName(fn), who, o.name, cnt[who+o.name])
+		cnt[who+o.name]++
+		found := false
+		for _, p := range ops {
+			if p.recv == other && p.name == o.name && p.call.Block() == o.call.Block() && sameArgs(p.args, o.args) {
+				found = true
+			}
+		}
+		if found {
+			r.ok("ELIM", key, w.ipos(o.call), "mirrored on the other matrix with the same operands")
+		} else {
+			r.bad("ELIM", key, w.ipos(o.call), fmt.Sprintf("%s.%s has no counterpart with the same operands on the other matrix in the same step: m and n no longer undergo the same row operations, so n is not M^-1 N", who, o.name))
+		}
+		if o.recv != m {
+			continue
+		}
+		switch o.name {
+		case "swapRows":
+			k2 := fmt.Sprintf("%s:pivot#%d", shortName(fn), cnt["pivot"])
+			cnt["pivot"]++
+			good := false
+			for _, c := range cmpsAt(o.call.Block()) {
+				if c.Op != token.NEQ || c.Y == nil {
+					continue
+				}
+				if z, isC := constInt(c.Y); !isC || z != 0 {
+					continue
+				}
+				if rc, row, col, ok := atCall(c.X); ok && rc == m && row == o.args[1] && col == o.args[0] {
+					good = true
+				}
+			}
+			if good {
+				r.ok("ELIM", k2, w.ipos(o.call), "swapRows(i, j) guarded by m.At(j, i) != 0")
+			} else {
+				r.bad("ELIM", k2, w.ipos(o.call), "the swap is not guarded by a non-zero test of the entry in the row swapped in and the column being eliminated (m.At(j, i) != 0): a zero can be taken as pivot or a valid pivot missed")
+			}
+		case "addScaledRow":
+			k2 := fmt.Sprintf("%s:factor#%d", shortName(fn), cnt["factor"])
+			cnt["factor"]++
+			if rc, row, col, ok := atCall(o.args[2]); ok && rc == m && row == o.args[0] && col == o.args[1] {
+				r.ok("ELIM", k2, w.ipos(o.call), "addScaledRow(d, s, c) with c = m.At(d, s)")
+			} else {
+				r.bad("ELIM", k2, w.ipos(o.call), "the factor of addScaledRow(d, s, c) is not m.At(d, s): the entry is not eliminated")
+			}
+		case "scaleRow":
+			k2 := fmt.Sprintf("%s:scale#%d", shortName(fn), cnt["scale"])
+			cnt["scale"]++
+			good := false
+			if inv, ok := stripConv(o.args[1]).(*ssa.Call); ok {
+				if f := inv.Call.StaticCallee(); f != nil && f.Name() == "Inverse" {
+					backSlice(inv.Call.Args[0], func(v ssa.Value) bool {
+						if rc, row, col, ok := atCall(v); ok && rc == m && row == o.args[0] && col == o.args[0] {
+							good = true
+						}
+						return true
+					})
+				}
+			}
+			if good {
+				r.ok("ELIM", k2, w.ipos(o.call), "scaleRow(r, Inverse(m.At(r, r)))")
+			} else {
+				r.bad("ELIM", k2, w.ipos(o.call), "the scale factor is not the inverse of the diagonal entry of that row")
+			}
+		}
+	}
+	r.floor("ELIM", "row operations in rowReduceForInverse", len(ops), 8)
+}
+
+// ---------------------------------------------------------------------------
+// SOLVE: the reconstruction matrix comes out of the solver
+
+const ruleSOLVEText = "no shortcut around the solver: every return of rsec16.makeReconstructionMatrix whose error may be nil returns, as the matrix, result 0 of gf2p16's RowReduceForInverse (or Inverse) - a hand-made matrix for a 'simple' case is right only for one parity matrix family"
+
+func ruleSOLVE(w *World, r *Report) {
+	r.rule("SOLVE", ruleSOLVEText)
+	fn := w.Fn("rsec16.makeReconstructionMatrix")
+	if fn == nil {
+		r.unk("SOLVE", "rsec16.makeReconstructionMatrix", "", "function not found")
+		return
+	}
+	n := 0
+	for _, b := range fn.Blocks {
+		ret, ok := b.Instrs[len(b.Instrs)-1].(*ssa.Return)
+		if !ok || len(ret.Results) != 2 {
+			continue
+		}
+		key := fmt.Sprintf("%s:return#%d", shortName(fn), n)
+		n++
+		if definitelyNonNilError(ret.Results[1]) {
+			r.ok("SOLVE", key, w.ipos(ret), "error return")
+			continue
+		}
+		fromSolver := func(v ssa.Value) bool {
+			ex, ok := v.(*ssa.Extract)
+			if !ok || ex.Index != 0 {
+				return false
+			}
+			c, ok := ex.Tuple.(*ssa.Call)
+			if !ok {
+				return false
+			}
+			f := c.Call.StaticCallee()
+			return f != nil && f.Pkg != nil && strings.HasSuffix(f.Pkg.Pkg.Path(), "/gf2p16") && (f.Name() == "RowReduceForInverse" || f.Name() == "Inverse")
+		}
+		okAll := true
+		var visit func(v ssa.Value, d int) bool
+		visit = func(v ssa.Value, d int) bool {
+			if fromSolver(v) {
+				return true
+			}
+			if phi, ok := v.(*ssa.Phi); ok && d < 4 {
+				for _, e := range phi.Edges {
+					if !visit(e, d+1) {
+						return false
+					}
+				}
+				return true
+			}
+			return false
+		}
+		okAll = visit(ret.Results[0], 0)
+		if okAll {
+			r.ok("SOLVE", key, w.ipos(ret), "the matrix returned is the solver's result")
+		} else {
+			r.bad("SOLVE", key, w.ipos(ret), "a return whose error may be nil hands back a matrix that did not come out of RowReduceForInverse: the reconstruction matrix of this case is made by hand")
+		}
+	}
+	r.floor("SOLVE", "returns of makeReconstructionMatrix", n, 1)
+}
+
+// ---------------------------------------------------------------------------
+// ZEROEXP: the zero cases of Pow are decided on the exponent itself
+
+const ruleZEROEXPText = "0^p is decided on p itself: in gf2p16 T.Pow, every comparison with 0 of a value derived from the exponent parameter compares the parameter itself (possibly converted), not a reduced or otherwise transformed exponent - 0^65535 is 0, not 0^0"
+
+func ruleZEROEXP(w *World, r *Report) {
+	r.rule("ZEROEXP", ruleZEROEXPText)
+	fn := w.Fn("(gf2p16.T).Pow")
+	if fn == nil || len(fn.Params) < 2 {
+		r.unk("ZEROEXP", "(gf2p16.T).Pow", "", "function not found")
+		return
+	}
+	p := ssa.Value(fn.Params[1])
+	n := 0
+	for _, b := range fn.Blocks {
+		for _, in := range b.Instrs {
+			bo, ok := in.(*ssa.BinOp)
+			if !ok || (bo.Op != token.EQL && bo.Op != token.NEQ) {
+				continue
+			}
+			var v ssa.Value
+			if z, isC := constInt(bo.Y); isC && z == 0 {
+				v = bo.X
+			} else if z, isC := constUint(bo.Y); isC && z == 0 {
+				v = bo.X
+			} else if z, isC := constInt(bo.X); isC && z == 0 {
+				v = bo.Y
+			} else {
+				continue
+			}
+			if !dependsOn(v, p) {
+				continue
+			}
+			key := fmt.Sprintf("%s:exp-zero-test#%d", shortName(fn), n)
+			n++
+			if stripAllConv(v) == p {
+				r.ok("ZEROEXP", key, w.ipos(bo), "the exponent parameter itself is compared with 0")
+			} else {
+				r.bad("ZEROEXP", key, w.ipos(bo), fmt.Sprintf("the zero test is made on %s, a value computed from the exponent, not on the exponent: exponents that are non-zero multiples of the group order are treated as 0", v))
+			}
+		}
+	}
+	r.floor("ZEROEXP", "zero tests of the exponent in Pow", n, 1)
+}
